@@ -30,6 +30,8 @@ type Obligation struct {
 	QueryTxt string
 	cutDecls, cutAsserts int // background prefix visible to this obligation (-1: everything)
 	enc *Enc
+	sliced    bool
+	sliceDepth int
 	assumeIdx int // index in Script.Asserts of the fact assumed after this obligation (-1: none)
 	excluded  map[int]bool // for COVER: assertion indexes to leave out (facts assumed after obligations that failed)
 }
@@ -118,6 +120,10 @@ type Enc struct {
 	debugNames     map[string][]*ssa.DebugRef
 	typedSeen      map[string]bool
 	hookHit        map[string]bool
+	rndInit        bool
+	rndConst       map[string]Term
+	rndVals        []Term
+	purified       map[string]Term
 }
 
 func (p *Prog) newEnc(fn *ssa.Function, fc *FuncContract, key string) *Enc {
@@ -129,7 +135,7 @@ func (p *Prog) newEnc(fn *ssa.Function, fc *FuncContract, key string) *Enc {
 		loops: map[*ssa.BasicBlock]*loopInfo{}, localCells: map[*ssa.Alloc]bool{},
 		counters: map[string]int{}, deferReg: map[*ssa.Defer]Term{}, callOrd: map[string]int{},
 		abstracted: map[string]bool{}, assumed: map[string]bool{}, rndSeen: map[string]bool{}, fnIDs: map[string]int{},
-		typedSeen: map[string]bool{}, hookHit: map[string]bool{}, usedContracts: map[string]bool{}, deferCallee: map[*ssa.Defer]Term{}, deferArgs: map[*ssa.Defer][]Term{}}
+		typedSeen: map[string]bool{}, rndConst: map[string]Term{}, purified: map[string]Term{}, hookHit: map[string]bool{}, usedContracts: map[string]bool{}, deferCallee: map[*ssa.Defer]Term{}, deferArgs: map[*ssa.Defer][]Term{}}
 	sc.Declare("TIME_ZERO", SInt)
 	sc.Assert(Eq(T("TIME_ZERO", SInt), IntLitS("-6795364578871345152"))) // any fixed value distinct from real clock readings
 	return e
@@ -292,8 +298,15 @@ func (e *Enc) define(v ssa.Value, t Term) {
 	if _, isParam := v.(*ssa.Parameter); isParam {
 		name = "p_" + sanitize(v.Name())
 	}
+	// integer-valued floats keep their syntactic witness: name the integer, not the real
+	if w, ok := intWitness(t); ok && t.Sort == SReal && !isDigits(strings.TrimPrefix(w.S, "-")) {
+		ic := e.sc.Declare(name+"$i", SInt)
+		e.sc.AssertDef(name+"$i", Eq(ic, w))
+		e.vals[v] = App(SReal, "to_real", ic)
+		return
+	}
 	c := e.sc.Declare(name, t.Sort)
-	e.sc.Assert(Eq(c, t))
+	e.sc.AssertDef(name, Eq(c, t))
 	e.vals[v] = c
 }
 
